@@ -38,6 +38,8 @@ class Ctx:
     def floor(self, what, n, minimum):
         """fail closed when a rule matched fewer sites than were confirmed by hand"""
         self.instances[what] = n
+        if os.environ.get("PV_RELAX_FLOORS"):
+            return      # release-profile pass of the thorough tier: site counts differ (no overflow asserts)
         if n < minimum:
             raise AnalysisError("rule=%s matched %d instances, floor is %d" % (what, n, minimum))
 
